@@ -8,6 +8,7 @@ disjunction over the member ranges; equal to `VC.allows` for every non-union con
 import PoetryVerif.Proofs.VRangeOps
 import PoetryVerif.Proofs.VRangeDiff
 import PoetryVerif.Proofs.VRangeWalk
+import PoetryVerif.Proofs.VRangeSort
 
 set_option linter.unusedSimpArgs false
 set_option linter.unusedVariables false
@@ -171,8 +172,8 @@ theorem member_union_single_exact (x y : RC) (hx : x.WF) (hy : y.WF) (htx : x.Ti
 /-- **`VersionUnion.of` (stable sort + merge) preserves membership**: whenever it returns, every member of
 the result is well-formed, mentions only bounds of the inputs, and the result admits a regular probe iff
 some input does.  (`Good l`: members well-formed and tidy.)
-Not proved: that it always returns, and that the result is sorted and separated — see
-`union_of_full_statement`. -/
+Totality: `union_of_total_partial`; the sort step: `union_of_sort_sorted`.  Not proved: that the merged result is
+separated (each member strictly below the next, not adjacent) — see `union_of_full_statement`. -/
 theorem union_of_preserves_membership_partial (l : List RC) (res : VC) (h : unionOfFlat l = .ok res)
     (hg : Good l) :
     Good res.flatten ∧ (∀ e ∈ res.bounds, e ∈ boundsOf l) ∧
@@ -185,6 +186,32 @@ theorem union_of_total_partial (l : List RC) (hg : Good l) (hn : NoLocalLower l)
     ∃ res, unionOfFlat l = .ok res ∧
       ∀ p, p.wf = true → Regular (boundsOf l) p → res.allowsPlain p = anyAllows l p :=
   unionOfFlat_total l hg hn
+
+/-- **the sort of `VersionUnion.of` is a sorted permutation**: Python's `<` on members (`VersionRange._cmp`,
+`Version.__lt__`) is a strict order — asymmetric and transitive — so the stable insertion sort that models
+`list.sort()` returns the same members with no later one smaller than an earlier one. -/
+theorem union_of_sort_sorted (l : List RC) :
+    SortedLt (sortRCs l) ∧ (∀ c, c ∈ sortRCs l ↔ c ∈ l) ∧
+    (∀ x y z : RC, RC.lt x y = true → RC.lt y z = true → RC.lt x z = true) ∧
+    (∀ x y : RC, RC.lt x y = true → RC.lt y x = false) :=
+  ⟨(sortRCs_sorted l).1, (sortRCs_sorted l).2, fun _ _ _ => RC.lt_trans', fun _ _ => RC.lt_asymm'⟩
+
+/-- when a union does not exclude a single *local* version, `VersionUnion.allows` — whenever it returns — is the
+disjunction over the members (the only other path is `not (excluded == v)`) -/
+theorem union_allows_eq_plain_of_returns (rs : List RC) (v : Version) (b : Bool)
+    (h : VC.allows (.union rs) v = .ok b)
+    (hex : ∀ ex, VC.excludedSingleVersion rs = .ok (some ex) → ex.isLocal = false) :
+    b = (VC.union rs).allowsPlain v := by
+  simp only [VC.allows, bind, Except.bind] at h
+  cases he : VC.excludedSingleVersion rs with
+  | error e => simp [he] at h
+  | ok o =>
+    simp only [he] at h
+    cases o with
+    | none => simpa [pure, Except.pure, VC.allowsPlain, VC.flatten] using h.symm
+    | some ex =>
+      simp only [hex ex he, Bool.false_eq_true, if_false] at h
+      simpa [pure, Except.pure, VC.allowsPlain, VC.flatten] using h.symm
 
 def union_of_full_statement : Prop :=
   ∀ l : List RC, Good l → ∃ res, unionOfFlat l = .ok res ∧ res.WF ∧
